@@ -20,6 +20,7 @@ import (
 // reaches the steady state, so C20 keeps its children alive across levels and configurations.
 // Each child is strictly sequential (GOMAXPROCS=1) and runs one world at a time.
 type Pool struct {
+	Exe     string // worker executable ("" = this executable)
 	n       int
 	free    chan *poolProc
 	mu      sync.Mutex
@@ -47,9 +48,12 @@ func NewPool(n int) *Pool {
 func (p *Pool) N() int { return p.n }
 
 func (p *Pool) spawn() (*poolProc, error) {
-	exe, err := os.Executable()
-	if err != nil {
-		return nil, err
+	exe := p.Exe
+	if exe == "" {
+		var err error
+		if exe, err = os.Executable(); err != nil {
+			return nil, err
+		}
 	}
 	cmd := exec.Command(exe, "-worker")
 	cmd.Env = append(os.Environ(), "GOMAXPROCS=1")
